@@ -55,7 +55,12 @@ def install_trig(x, ctx):
     x.ext["np.cos"] = f1(cosf, [T1]); x.ext["np.sin"] = f1(sinf, [T1])
     x.ext["np.hypot"] = f2(hyp, [T5])
     x.ext["np.arctan2"] = f2(at2, [T3, T4, T5], swap=True)         # arctan2(y, x): lemmas are stated for (x, y)
-    x.ext["np.sqrt"] = f1(sqrtf, [T6])
+    def np_sqrt(x_, args, kwargs, st, n):
+        a = x_.as_num(st, args[0], n)
+        x_.assume.append(T6(a.val)); x_.assume.append(IMP(a.val == 0, sqrtf(a.val) == 0))
+        x_.ghost["sqrt_arg"] = a.val
+        return fin(sqrtf(a.val))
+    x.ext["np.sqrt"] = np_sqrt
     x.ext["math.pi"] = fin(PI); x.ext["np.pi"] = fin(PI)
     x.assume.append(PI_FACTS)
     def isclose(x_, args, kwargs, st, n):
@@ -358,9 +363,33 @@ def u_arc_radius(ctx):
         cen = calls[0][2]
         s2 = State(e.cond, {}, e.heap, [])
         ccx = ox + x.as_num(s2, cen.items[0]).val; ccy = oy + x.as_num(s2, cen.items[1]).val
-        # NOTE: "centre equidistant from both ends" and "sign of the radius selects minor/major arc" need non-linear reasoning with
-        # sqrt and division that neither back end decides inside this VC (the field identities themselves are immediate in isolation):
-        # they are checked by the BOUNDED stand-in specs/bounded.py:c10_arc_radius and are not counted as proved.
+        # centre equidistant / side selection.  The obligation is decomposed so that each query stays small:
+        #   U, V  := the offset centre − start as the code computes it (fresh names, defined by linear equalities over the code's own product terms)
+        #   lemma Geom.chord_centre(U, V, a, b, h, d, s): field identity, proved on its own from 5 hypotheses
+        #   T6 at the radicand the code uses gives h·h
+        U, V = fresh("U", R), fresh("V", R)
+        a_, b_ = tx - ox, ty - oy
+        hterm = x.ghost.get("sqrt_arg")
+        if hterm is not None:
+            h_ = sqrtf(hterm)
+            pre_uv = [e.cond, U == ccx - ox, V == ccy - oy, d > 0]
+            sgn = ITE(cw == (r.val > 0), z3.RealVal(1), z3.RealVal(-1))
+            av, bv, hv, dv, uv, vv, sv = z3.Reals("a_ b_ h_ d_ u_ v_ s_")
+            hyps = [dv != 0, av * av + bv * bv == dv * dv, OR(sv == 1, sv == -1), uv == av / 2 + sv * (hv * bv / dv), vv == bv / 2 - sv * (hv * av / dv)]
+            g1 = uv * uv + vv * vv == (dv / 2) * (dv / 2) + hv * hv
+            g2 = (uv - av) * (uv - av) + (vv - bv) * (vv - bv) == (dv / 2) * (dv / 2) + hv * hv
+            g3 = av * vv - bv * uv == -sv * hv * dv
+            for nm, gg in (("start", g1), ("target", g2), ("cross", g3)):
+                ctx.lemma(f"Geom.chord_centre[{nm}] (field identity)", hyps, gg)
+                for sg in (z3.RealVal(1), z3.RealVal(-1)):       # instantiated for both sides: the distance clauses do not depend on which side the code picks
+                    ctx.assume(z3.substitute(IMP(AND(*hyps), gg), (av, a_), (bv, b_), (hv, h_), (dv, d), (uv, U), (vv, V), (sv, sg)))
+            reff2 = ITE(too_small, (d / 2) * (d / 2), absr * absr)
+            ctx.check("the centre is at distance |radius| from the start and from the target (half the chord when clamped)",
+                      IMP(AND(*pre_uv[1:]), AND(U * U + V * V == reff2, (U - a_) * (U - a_) + (V - b_) * (V - b_) == reff2)), e, None, "post")
+            cross = a_ * V - b_ * U
+            minor = ITE(cw, cross <= 0, cross >= 0); major = ITE(cw, cross >= 0, cross <= 0)
+            ctx.check("a positive radius selects the minor arc, a negative radius the major arc, in the configured direction",
+                      IMP(AND(*pre_uv[1:]), AND(IMP(r.val > 0, minor), IMP(r.val < 0, major))), e, None, "post")
         ctx.canary("canary: centre is the chord midpoint", AND(ccx == (ox + tx) / 2, ccy == (oy + ty) / 2), e)
 
 
@@ -604,14 +633,21 @@ def u_parametric(ctx):
     x.contracts[("GCodeCore", "to_distance_mode")] = h_tdm; x.contracts[("GCodeCore", "move")] = h_move    # verified: segment unit
     loop_seen = []
     def loop(x_, node, st_):
+        """loop over the filtered vertices: either `for point in (Point(*t) for t in points)` or `for t in points` with the conversion in the body —
+        a generic row (three finite reals) is bound the way the code binds it, then the body runs once"""
         it = node.iter
-        ok = (isinstance(it, ast.GeneratorExp) and len(it.generators) == 1 and isinstance(it.elt, ast.Call) and isinstance(it.elt.func, ast.Name) and it.elt.func.id == "Point"
-              and len(it.elt.args) == 1 and isinstance(it.elt.args[0], ast.Starred) and not it.generators[0].ifs)
-        if not ok: raise Unsupported("parametric loop shape")
-        src = x_.ev(it.generators[0].iter, st_)
+        row_t = VTuple([fin(fresh(f"row{i}", R)) for i in range(3)])
+        row = VPoint(*[VOpt(F, c) for c in row_t.items])
+        if isinstance(it, ast.GeneratorExp) and len(it.generators) == 1 and not it.generators[0].ifs:
+            src = x_.ev(it.generators[0].iter, st_)
+            x_.assign(it.generators[0].target, row_t, st_)
+            val = x_.ev(it.elt, st_)
+        else:
+            src = x_.ev(it, st_)
+            val = row_t
+        if not (isinstance(src, VRef) and src.cls == "SymArr"): raise Unsupported("parametric loop iterates over something else than an array of vertices")
         loop_seen.append(src)
-        row, _ = known_point("row", finite=True)
-        x_.assign(node.target, row, st_)
+        x_.assign(node.target, val, st_)
         events.append(("loop-body-begin", row))
         x_.block(node.body, st_)
         events.append(("loop-body-end",))
@@ -639,5 +675,5 @@ def u_parametric(ctx):
                   z3.BoolVal(fo["$kind"].py == "curve" and len(loop_seen) == 1 and e.heap[loop_seen[0].oid]["$kind"].py == "filtered"), e, None, "post")
         row = events[3][1]
         ctx.check("each surviving vertex is converted with to_distance_mode() and traced with move(), with the caller's keyword parameters",
-                  AND(v_same(events[4][1], row), v_same(events[5][1], events[4][2]), v_same(e.heap[events[5][2].oid]["$d"], h0[kw.oid]["$d"]) if isinstance(events[5][2], VRef) else F), e, None, "post")
+                  AND(v_same(events[4][1], row) if isinstance(events[4][1], VPoint) else F, v_same(events[5][1], events[4][2]), v_same(e.heap[events[5][2].oid]["$d"], h0[kw.oid]["$d"]) if isinstance(events[5][2], VRef) else F), e, None, "post")
     ctx.trust("np.linspace(0, 1, n+1): n+1 equally spaced samples from 0 to 1 inclusive (assumed)")
